@@ -1374,3 +1374,171 @@ mod tests {
         };
     }
 }
+
+// Verification hooks (compiled only with `--cfg mini_moka_verif`).
+#[cfg(mini_moka_verif)]
+impl<K, V, S> BaseCache<K, V, S>
+where
+    K: Hash + Eq + Send + Sync + 'static,
+    V: Clone + Send + Sync + 'static,
+    S: BuildHasher + Clone + Send + Sync + 'static,
+{
+    pub(crate) fn verif_set_clock(&self, mock: &crate::verif::MockClock) {
+        {
+            let mut exp_clock = self.inner.expiration_clock.write().expect("lock poisoned");
+            *exp_clock = Some(mock.clock());
+            self.inner.has_expiration_clock.store(true, Ordering::SeqCst);
+        }
+        if let Some(hk) = &self.housekeeper {
+            hk.verif_reset_sync_after(self.inner.current_time_from_expiration_clock());
+        }
+    }
+
+    pub(crate) fn verif_frequency(&self, key: &K) -> u8 {
+        let hash = self.inner.build_hasher.hash_one(key);
+        self.inner
+            .frequency_sketch
+            .read()
+            .expect("lock poisoned")
+            .frequency(hash)
+    }
+
+    /// Canonical text rendering of the whole internal state (see /verif/DESIGN.md).
+    /// Must not be called while a maintenance run is in progress on another thread
+    /// (it takes the deques lock).
+    pub(crate) fn verif_snapshot(
+        &self,
+        base: std::time::Instant,
+        fk: &dyn Fn(&K) -> u64,
+        fv: &dyn Fn(&V) -> u64,
+    ) -> String {
+        use crate::verif::{fmt_sketch, fmt_ts};
+        use std::fmt::Write;
+
+        let i = &self.inner;
+        let deqs = i.deques.lock().expect("lock poisoned");
+        let (ao_nodes, ao_problem) = deqs.probation.verif_walk();
+        let (wo_nodes, wo_problem) = deqs.write_order.verif_walk();
+        let ao_addrs: Vec<usize> = ao_nodes.iter().map(|n| n.as_ptr() as usize).collect();
+        let wo_addrs: Vec<usize> = wo_nodes.iter().map(|n| n.as_ptr() as usize).collect();
+        let pos = |nodes: &[usize], p: Option<usize>| match p {
+            None => "-".to_string(),
+            Some(p) => match nodes.iter().position(|n| *n == p) {
+                Some(i) => i.to_string(),
+                None => "!".to_string(),
+            },
+        };
+        // EntryInfo identity classes, numbered in order of first appearance.
+        let mut classes: Vec<usize> = Vec::new();
+        let mut class_of = |p: usize| -> usize {
+            match classes.iter().position(|c| *c == p) {
+                Some(i) => i,
+                None => {
+                    classes.push(p);
+                    classes.len() - 1
+                }
+            }
+        };
+
+        let mut out = String::new();
+        let (running, sync_after) = match &self.housekeeper {
+            Some(hk) => hk.verif_state(),
+            None => (false, None),
+        };
+        let _ = write!(
+            out,
+            "ec={} ws={} skon={} va={} rq={} wq={} sa={} run={} map=[",
+            i.entry_count.load(),
+            i.weighted_size.load(),
+            i.frequency_sketch_enabled.load(Ordering::Acquire) as u8,
+            fmt_ts(base, i.valid_after()),
+            i.read_op_ch.len(),
+            i.write_op_ch.len(),
+            fmt_ts(base, sync_after),
+            running as u8,
+        );
+        let mut entries: Vec<(u64, u64, u32, String, String, u8, u8, String, String, usize)> = i
+            .cache
+            .iter()
+            .map(|r| {
+                let e = r.value();
+                let info = e.entry_info();
+                (
+                    fk(r.key()),
+                    fv(&e.value),
+                    e.policy_weight(),
+                    fmt_ts(base, info.last_accessed()),
+                    fmt_ts(base, info.last_modified()),
+                    e.is_admitted() as u8,
+                    e.is_dirty() as u8,
+                    pos(
+                        &ao_addrs,
+                        e.access_order_q_node().map(|n| n.decompose_ptr() as usize),
+                    ),
+                    pos(&wo_addrs, e.write_order_q_node().map(|n| n.as_ptr() as usize)),
+                    &**info as *const EntryInfo<K> as usize,
+                )
+            })
+            .collect();
+        entries.sort();
+        let strs: Vec<String> = entries
+            .into_iter()
+            .map(|(k, v, w, la, lm, adm, dirty, ao, wo, info)| {
+                format!(
+                    "{}:{}:{}:{}:{}:{}:{}:{}:{}:{}",
+                    k,
+                    v,
+                    w,
+                    la,
+                    lm,
+                    adm,
+                    dirty,
+                    ao,
+                    wo,
+                    class_of(info)
+                )
+            })
+            .collect();
+        out.push_str(&strs.join(","));
+        out.push_str("] prob=[");
+        let strs: Vec<String> = ao_nodes
+            .iter()
+            .map(|n| {
+                let e = unsafe { Deque::verif_element(*n) };
+                format!(
+                    "{}:{}:{}",
+                    fk(e.key()),
+                    e.hash(),
+                    class_of(e.entry_info() as *const EntryInfo<K> as usize)
+                )
+            })
+            .collect();
+        out.push_str(&strs.join(","));
+        out.push_str("] wo=[");
+        let strs: Vec<String> = wo_nodes
+            .iter()
+            .map(|n| {
+                let e = unsafe { Deque::verif_element(*n) };
+                format!(
+                    "{}:{}",
+                    fk(e.key()),
+                    class_of(e.verif_entry_info() as *const EntryInfo<K> as usize)
+                )
+            })
+            .collect();
+        out.push_str(&strs.join(","));
+        out.push_str("] ");
+        out.push_str(&fmt_sketch(
+            &i.frequency_sketch.read().expect("lock poisoned"),
+        ));
+        let others = deqs.window.verif_len() + deqs.protected.verif_len();
+        let walk = match (ao_problem, wo_problem) {
+            (None, None) if others == 0 => "ok".to_string(),
+            (None, None) => format!("window/protected deques hold {} nodes", others),
+            (Some(p), _) => format!("probation: {}", p),
+            (_, Some(p)) => format!("write_order: {}", p),
+        };
+        let _ = write!(out, " walk={}", walk.replace(' ', "_"));
+        out
+    }
+}
